@@ -169,6 +169,9 @@ package shaping
 // WrapParagraph's fast path (one run that fits): the line is post-processed like the lines WrapNextLine builds.
 //@ func LineWrapper.WrapParagraph C08 C04
 //@   mode bv
+//   C04: the fast path is only taken when the run fits, measured like the general path (ceiling of the advance)
+//@   assert_at call trimTrailingWhitespace#1 : [fast-path-line-fits] ceil26_6(firstRun.Advance) <= maxWidth
+//@   assert_at call singleRunParagraph#1 : [fast-path-line-fits-untrimmed] implies(config.DisableTrailingWhitespaceTrim, ceil26_6(firstRun.Advance) <= maxWidth)
 //@   assert_at call singleRunParagraph#1 : [fast-path-line-is-ordered] firstRun.VisualIndex == 0
 //@   assert_at call singleRunParagraph#1 : [fast-path-line-is-trimmed] implies(!config.DisableTrailingWhitespaceTrim && len(firstRun.Glyphs) > 0,
 //@     | ite(firstRun.Direction.IsVertical(), implies(firstRun.Glyphs[trailingIdx(firstRun, config.Direction)].Height == 0, firstRun.Glyphs[trailingIdx(firstRun, config.Direction)].YAdvance == 0),
@@ -253,6 +256,7 @@ package shaping
 //   C13 ("a shaper that has been used before returns exactly what a fresh one returns"): the harfbuzz.Font handed to
 //   HarfBuzz is one built from THIS face, whatever the font cache holds.
 //@   assert_at call Shape#1 : [font-of-this-face] font.Face() == input.Face
+//@   assert_at call Shape#1 : [font-scaled-for-this-size] font.XScale == int32(input.Size.Ceil())<<scaleShift && font.YScale == font.XScale
 //
 // The font cache: frames only (the list/map invariants are not stated).
 //@ func fontLRU.Get C13
@@ -308,26 +312,38 @@ package shaping
 //@   ensures [keeps-lines] w.lineUsed == old(w.lineUsed) && sameslice(w.line, old(w.line)) && sameslice(w.paragraph, old(w.paragraph))
 //@   modifies w.alt; w.altAdvance; w.altSave; w.altAdvanceSave; w.best; w.bestInLine
 //
-//@ func wrapBuffer.candidateSave C02
+//@ func wrapBuffer.candidateSave C02 C04
 //@   mode bv
 //@   ensures [saved] sameslice(w.altSave, w.alt) && w.altAdvanceSave == w.altAdvance
 //@   modifies w.altSave; w.altAdvanceSave
 //
-//@ func wrapBuffer.candidateRestore C02
+//@ func wrapBuffer.candidateRestore C02 C04
 //@   mode bv
 //@   ensures [restored] sameslice(w.alt, old(w.altSave)) && w.altAdvance == old(w.altAdvanceSave)
 //@   modifies w.alt; w.altAdvance
 //
 // sumRunAdv: sum of the Advance fields of runs[lo:hi).
 //@ spec sumRunAdv(runs []Output, lo int, hi int) fixed.Int26_6 = ite(hi <= lo, fixed.Int26_6(0), sumRunAdv(runs, lo, hi-1) + runs[hi-1].Advance)
-//@ func wrapBuffer.candidateAppend C02
+//@ func wrapBuffer.candidateAppend C02 C04
 //@   mode bv
 //@   ensures [length] len(w.alt) == old(len(w.alt))+1
 //@   ensures [last] w.alt[len(w.alt)-1].Advance == run.Advance && w.alt[len(w.alt)-1].Runes.Offset == run.Runes.Offset && w.alt[len(w.alt)-1].Runes.Count == run.Runes.Count && sameslice(w.alt[len(w.alt)-1].Glyphs, run.Glyphs)
 //@   ensures [advance] w.altAdvance == old(w.altAdvance)+run.Advance
 //@   modifies unspecified
 //
-//@ func wrapBuffer.finalizeBest C02
+// markCandidateBest: the best line is the candidate followed by the suffixes; it lives in the unused part of the line
+// buffer exactly when bestInLine says so (finalizeBest advances lineUsed by its length only then), otherwise in
+// fresh memory.
+//@ func wrapBuffer.markCandidateBest C02 C04
+//@   mode int
+//@   requires [buffer] 0 <= w.lineUsed && w.lineUsed <= cap(w.line) && len(w.line) <= cap(w.line)
+//@   ensures [length] len(w.best) == len(w.alt) + len(suffixes)
+//@   ensures [in-line-iff-it-fits] w.bestInLine == (old(cap(w.line) - w.lineUsed) >= len(w.alt) + len(suffixes))
+//@   ensures [storage] ite(w.bestInLine, rid(w.best) == rid(w.line) && off(w.best) == off(w.line) + w.lineUsed && w.lineUsed + len(w.best) <= cap(w.line), fresh(w.best))
+//@   ensures [candidate-kept] sameslice(w.alt, old(w.alt)) && w.lineUsed == old(w.lineUsed)
+//@   modifies w.best; w.bestInLine; w.lineExhausted; all(Output)
+//
+//@ func wrapBuffer.finalizeBest C02 C04
 //@   mode bv
 //@   ensures [returns-best] sameslice(result, old(w.best))
 //@   ensures [commits] w.lineUsed == old(w.lineUsed) + ite(old(w.bestInLine), len(old(w.best)), 0)
@@ -389,8 +405,6 @@ package shaping
 //@   modifies *l; all(segmenter.LineIterator); all(segmenter.GraphemeIterator)
 //@ trusted breaker.nextGraphemeBreak
 //@   modifies *l; all(segmenter.LineIterator); all(segmenter.GraphemeIterator)
-//@ trusted wrapBuffer.markCandidateBest
-//@   modifies w.best; w.bestInLine; w.lineExhausted; all(Output)
 //
 // wrapNextLine, break policies (property C03): breaking inside a UAX #14 segment (the grapheme loop) is attempted only
 // if the policy allows it: never with Never; with WhenNecessary only when the segment cannot fit on a line by itself
